@@ -4,7 +4,7 @@ import traceback
 
 import z3
 from vf.core import result, DISCHARGED, VIOLATED, INCONCLUSIVE, VACUOUS, ERROR, fn_ident
-from vf.e1.sym import (Ref, NONE_ID, AND, OR, NOT, EQ, NE, LT, B, IMPLIES, Unsupported, ite_chain)
+from vf.e1.sym import (Ref, SInt, ATOMS, NONE_ID, AND, OR, NOT, EQ, NE, LT, LE, GE, ITE, B, IMPLIES, Unsupported, ite_chain)
 from vf.e1.heap import Universe, Heap
 from vf.e1.vals import Local
 from vf.e1.interp import Ctx, Frame, call_function
@@ -138,3 +138,129 @@ def replay_merge(rp):
                 probs.append("an old wire is still in a cable or still lists %d pins" % len(w.pins))
         probs += wellformed.c01_problems(wellformed.closure(list(objs.values())))
         return bool(probs), ".conn merge: %s" % probs[:4]
+
+
+def connect_two_models_job(tier, timeout_ms=300000):
+    """EBLIFParser.connect_pin_to_wire called while reading model A and then while reading model B (parser built
+    by its real __init__): each pin is joined to bit i of the net with that name IN THE MODEL BEING READ -- created
+    there if absent -- whatever was connected in the model before (nets never leak between models)."""
+    from spydrnet.parsers.eblif.eblif_parser import EBLIFParser
+    t0 = time.time()
+    name = "C18/EBLIFParser.connect_pin_to_wire/net-of-the-model-being-read"
+    u = Universe(dict(Netlist=0, Library=0, Definition=2, Port=2, Cable=2, Wire=2, Instance=0, InnerPin=2, OuterPin=0),
+                 dict(Cable=2, Wire=4), 3, keys=(".NAME",), atoms=("x", "y"))
+    shape = {("Definition", 0, "_cables"): [0], ("Cable", 0, "_wires"): [0], ("Definition", 0, "_ports"): [0], ("Port", 0, "_pins"): [0],
+             ("Definition", 1, "_cables"): [1], ("Cable", 1, "_wires"): [1], ("Definition", 1, "_ports"): [1], ("Port", 1, "_pins"): [1]}
+    pre = Heap.symbolic(u).apply_shape(shape)
+    heap = pre.copy()
+    ctx = Ctx(heap, M.REAL)
+    M.listeners_none(ctx)
+    ctx.globals_over[("spydrnet.global_state.global_service", "_registered_lookups")] = {}
+    fr = Frame(None, True, {})
+    kn = u.keys.index(".NAME")
+    A = pre.type_constraints() + spec.inv_all(pre)
+    A += [pre.data["Cable"][0][kn][0], pre.data["Cable"][1][kn][0],
+          EQ(pre.sc[("InnerPin", "_wire")][0], NONE_ID), EQ(pre.sc[("InnerPin", "_wire")][1], NONE_ID)]
+    from vf.e1.sym import SAtom
+    names = [SAtom(z3.Int("net_name_%d" % k), u.atom_ids) for k in range(2)]
+    idx = [z3.Int("bit_%d" % k) for k in range(2)]
+    for k in range(2):
+        A += [OR(*[EQ(names[k].t, a) for a in u.atom_ids]), GE(idx[k], 0), LE(idx[k], 1)]
+    A = [B(a) for a in A if a is not True]
+    selfv = Local(EBLIFParser, {})
+    try:
+        call_function(ctx, fr, EBLIFParser.__init__, [selfv], owner=EBLIFParser)
+        for k in range(2):
+            selfv.f["current_model"] = Ref(u.gid("Definition", k), ("Definition",))
+            call_function(ctx, fr, EBLIFParser.connect_pin_to_wire,
+                          [selfv, Ref(u.gid("InnerPin", k), ("InnerPin",)), names[k], SInt(idx[k])], owner=EBLIFParser)
+    except Unsupported as e:
+        return [result(name, INCONCLUSIVE, "E1/symheap", detail="Unsupported: %s" % e, wall_s=time.time() - t0)]
+    post = heap
+    goals = {}
+    own, named, bit = [], [], []
+    NW, NC = u.n["Wire"], u.n["Cable"]
+    for k in range(2):
+        w = post.sc[("InnerPin", "_wire")][k]
+        cab = ite_chain(w, u.ids("Wire"), post.sc[("Wire", "_cable")], NONE_ID)
+        owner = ite_chain(cab, u.ids("Cable"), post.sc[("Cable", "_definition")], NONE_ID)
+        own.append(AND(NE(w, NONE_ID), EQ(owner, u.gid("Definition", k))))
+        nm = ite_chain(cab, u.ids("Cable"), [ITE(post.data["Cable"][c][kn][0], post.data["Cable"][c][kn][1], 0) for c in range(NC)], 0)
+        named.append(EQ(nm, names[k].t))
+        pos_ok = False
+        for c in range(NC):
+            ln, el = post.ls[("Cable", "_wires")][c]
+            for j in range(len(el)):
+                pos_ok = OR(pos_ok, AND(EQ(cab, u.gid("Cable", c)), LT(j, ln), EQ(el[j], w), EQ(idx[k], j)))
+        bit.append(pos_ok)
+    goals["pin-joins-a-net-of-the-model-being-read"] = own
+    goals["that-net-carries-the-given-name"] = named
+    goals["at-the-given-bit-position"] = bit
+    goals["well-formed-afterwards"] = [c for g, cs in spec.inv_groups(post).items() for c in cs
+                                       if g.split(":")[0] in ("I1", "I2", "types")]
+    funcs = sorted(fn_ident(f) for f in ctx.funcs_seen)
+    bounds = dict(u.describe(), shape={"%s/%d/%s" % k: v for k, v in shape.items()}, bit_index="0..1",
+                  names="x / y (symbolic, also for the existing nets)")
+    ok = [B(NOT(ctx.bound)), B(NOT(ctx.exc))]
+    tw = {"pre_sat": M.check(A, True, 60000)[0], "returns": M.check(A, AND(NOT(ctx.exc), NOT(ctx.bound)), 120000)[0],
+          "same-name-in-both-models": M.check(A + ok, EQ(names[0].t, names[1].t), 120000)[0]}
+    if any(v != "sat" for v in tw.values()):
+        return [result(name, VACUOUS, "E1/symheap", twins=tw, bounds=bounds, detail="reachability twin failed: %s %s" % (
+            tw, sorted(set(ctx.bound_why))[:3]))]
+    out = []
+    for g, cs in list(goals.items()) + [("never-raises", None)]:
+        oname = name + "/" + g
+        if cs is None:
+            st, dt, mdl = M.check(A + [B(NOT(ctx.bound))], ctx.exc, timeout_ms)
+        else:
+            st, dt, mdl = M.check(A + ok, NOT(AND(*cs)), timeout_ms)
+        if st == "unsat":
+            out.append(result(oname, DISCHARGED, "E1/symheap", queries=1, solver_s=dt, twins=tw, bounds=bounds,
+                              functions=funcs, detail="unsat", wall_s=time.time() - t0, paths=1))
+        elif st != "sat":
+            out.append(result(oname, INCONCLUSIVE, "E1/symheap", detail="solver: %s" % st, bounds=bounds))
+        else:
+            mv = lambda x: replay.mval(mdl, x)
+            rp = {"engine": "E1", "property": "C18", "obligation": oname, "kind": "connect_two_models",
+                  "existing": [ATOMS.vals[mv(pre.data["Cable"][c][kn][1])] for c in range(2)],
+                  "names": [ATOMS.vals[mv(names[k].t)] for k in range(2)], "bits": [mv(idx[k]) for k in range(2)]}
+            try:
+                viol, txt = replay_connect_two_models(rp)
+            except Exception:
+                viol, txt = False, "replay crashed: " + traceback.format_exc()[-400:]
+            out.append(result(oname, VIOLATED if viol else ERROR, "E1/symheap", queries=1, solver_s=dt, twins=tw,
+                              bounds=bounds, functions=funcs, replay=rp if viol else None,
+                              detail=txt if viol else "counterexample did not reproduce: " + txt,
+                              wall_s=time.time() - t0))
+    return out
+
+
+def replay_connect_two_models(rp):
+    """the real parser object, two real models, the two calls in order"""
+    import spydrnet as sdn
+    from spydrnet.parsers.eblif.eblif_parser import EBLIFParser
+    with replay.listener_config("none"):
+        p = EBLIFParser()
+        lib = sdn.Library(name="work")
+        pins, models = [], []
+        for k in range(2):
+            d = lib.create_definition(name="m%d" % k)
+            d.create_cable(name=rp["existing"][k]).create_wire()
+            pins.append(d.create_port(name="p").create_pin())
+            models.append(d)
+        probs = []
+        for k in range(2):
+            p.current_model = models[k]
+            try:
+                p.connect_pin_to_wire(pins[k], rp["names"][k], rp["bits"][k])
+            except Exception as e:
+                return True, "connect_pin_to_wire raised %s: %s" % (type(e).__name__, str(e)[:80])
+            w = pins[k].wire
+            if w is None or w.cable is None or w.cable.definition is not models[k]:
+                probs.append("pin of model %d joined a net of %s" % (
+                    k, "nothing" if w is None or w.cable is None else "model " + str(models.index(w.cable.definition))))
+            elif w.cable.name != rp["names"][k] or w.cable.wires.index(w) != rp["bits"][k]:
+                probs.append("pin of model %d is on %s[%d], asked for %s[%d]" % (
+                    k, w.cable.name, w.cable.wires.index(w), rp["names"][k], rp["bits"][k]))
+        return bool(probs), "existing nets %s, connects %s: %s" % (
+            rp["existing"], list(zip(rp["names"], rp["bits"])), probs or "as asked")
